@@ -396,3 +396,24 @@ def alias_root(f, name, defs=None, depth=0):
                     return alias_root(f, t["ref"]["n"], defs, depth + 1)
                 return name
     return name
+
+
+def reaching_def(f, declid, use_node, defs=None):
+    """right-hand side of the one definition of the local that reaches `use_node` (every path from another definition to the use
+    passes it again); None when several definitions reach the use"""
+    defs = defs if defs is not None else local_defs(f)
+    dl = [d for d in defs.get(declid, []) if d[2] is not None and d[0] != "addr"]
+    if any(d[0] == "addr" for d in defs.get(declid, [])):
+        return None
+    up = f.node_pos(use_node)
+    if up is None:
+        return None
+    reach = []
+    for d in dl:
+        dp = f.node_pos(d[1])
+        if dp is None:
+            continue
+        others = set(f.node_pos(o[1]) for o in dl if o is not d and f.node_pos(o[1]) is not None)
+        if dp == up or f.find_path(dp, {up}, avoid=others - {up}) is not None:
+            reach.append(d)
+    return reach[0][2] if len(reach) == 1 else None
